@@ -15,34 +15,16 @@ from ..core import Check
 sys.setrecursionlimit(100000)
 
 
-def snapshot(p, seen=None):
-    """Deep structural picture of a predicate: classes, fields, set contents."""
-    if isinstance(p, Predicate):
-        d = getattr(p, "__dict__", {})
-        return (type(p).__name__, tuple((k, snapshot(v)) for k, v in sorted(d.items()) if k != "frame"))
-    if isinstance(p, (set, frozenset)):
-        return ("set", tuple(sorted(map(repr, p))))
-    if isinstance(p, (list, tuple)):
-        return (type(p).__name__, tuple(snapshot(x) for x in p))
-    if callable(p):
-        return ("fn", id(p))
-    return ("v", repr(p))
+snapshot = optcorr.snapshot
 
 
-def count_optimize_calls(p):
-    n = 0
+def cost_limit(size):
+    """Generous polynomial allowance for the number of optimize* invocations (observed: <= ~0.3 size^2)."""
+    return 20 * size * size + 2000
 
-    def prof(frame, event, arg):
-        nonlocal n
-        if event == "call" and frame.f_code.co_name.startswith("optimize") and "optimizer" in frame.f_code.co_filename:
-            n += 1
 
-    sys.setprofile(prof)
-    try:
-        optimize(p)
-    finally:
-        sys.setprofile(None)
-    return n
+def count_optimize_calls(p, size):
+    return optcorr.optimize_counted(p, cost_limit(size))[1]
 
 
 def chain(kind, n):
@@ -93,12 +75,15 @@ def main(tier):
     cfg, detail = optcorr.detect_cfg()
     chk.extra["cfg"] = cfg
     # 1. termination on the C01-C03 term spaces: the model never runs out of fuel and the implementation returns a predicate
-    never = lambda p, o, s: None  # noqa: E731  (meaning preservation is C01-C03's business)
+    optcorr.CALL_BUDGET = cost_limit
+    optcorr.SNAPSHOT = True  # every optimize call of the termination pass is also a purity observation
+    never = optcorr.NoJudge()  # meaning preservation is C01-C03's business
     prop = list(cases.trees_upto(5 if tier == "quick" else 6, cases.prop_leaves(cases.NAMES3)))
     scal = rng.sample(list(cases.pair_shapes(cases.scalar_atoms())), 6000 if tier == "quick" else 30000)
     quant = [cases.random_tree(rng, rng.randint(3, 14), list(cases.quantified_atoms(cases.elem_preds()))[:60] + cases.coll_atoms() + ["tt", "ff"]) for _ in range(1500)]
     big = [cases.random_tree(rng, rng.randint(60, 400), cases.prop_leaves(cases.NAMES5) + cases.scalar_atoms()[:30]) for _ in range(150 if tier == "quick" else 1500)]
-    for name, cs in (("opt/prop", prop), ("opt/scalar", scal), ("opt/quantified", quant), ("opt/big-random", big)):
+    rep = list(cases.repeat_shapes(cases.mergeable_atoms()))
+    for name, cs in (("opt/prop", prop), ("opt/scalar", scal), ("opt/repeated-atom", rep), ("opt/quantified", quant), ("opt/big-random", big)):
         optcorr.run(chk, name, cs, cfg, never, share=True)
     # 2. cost: number of optimize* invocations on growing families (measurement, not proof)
     sizes = [8, 16, 32, 64] + ([128, 256] if tier == "thorough" else [128])
@@ -109,7 +94,10 @@ def main(tier):
             t = chain(fam, n)
             p = lift.lower(t)
             try:
-                c = count_optimize_calls(p)
+                c = count_optimize_calls(p, S.size(t))
+            except optcorr.CostExceeded as e:
+                chk.add_failure(f"family {fam} n={n}", {"what": f"optimize* call count exceeds the polynomial allowance 20*size^2+2000 at size {S.size(t)}: {e}"}, None)
+                break
             except RecursionError:
                 chk.add_failure(f"family {fam} n={n}", {"what": "RecursionError in optimize"}, None)
                 break
